@@ -646,6 +646,8 @@ struct Model {
     text_names: Vec<String>,
     free: Vec<String>,
     func: Option<TT>,
+    /// most rounds any single fixed point of the formula needs (reach probe)
+    fix_rounds: u64,
 }
 
 fn model_of(p: &TablePlan) -> Result<Model, String> {
@@ -656,6 +658,7 @@ fn model_of(p: &TablePlan) -> Result<Model, String> {
             free: names.clone(),
             text_names: names,
             func: None,
+            fix_rounds: 0,
         });
     }
     if let Some((n, with_false)) = p.blowup {
@@ -667,6 +670,7 @@ fn model_of(p: &TablePlan) -> Result<Model, String> {
             free: names.clone(),
             text_names: names,
             func: None,
+            fix_rounds: 0,
         });
     }
     let f = p.formula.as_ref().ok_or("plan without formula")?;
@@ -694,11 +698,13 @@ fn model_of(p: &TablePlan) -> Result<Model, String> {
     let text_names = f.names_in_text_order();
     let mut ev = Evaluator::new(&text_names).map_err(|e| format!("{e:?}"))?;
     let func = ev.eval(f).map_err(|e| format!("{e:?}"))?;
+    let fix_rounds = ev.max_rounds;
     Ok(Model {
         text,
         free: f.free_names(),
         text_names,
         func: Some(func),
+        fix_rounds,
     })
 }
 
@@ -847,6 +853,9 @@ pub fn execute_table(p: &TablePlan) -> RunOutcome {
     bump(&mut stats, &format!("probe.opts.t{}v{}m{}r{}b{}f{}", p.t as u8, p.v as u8, p.m as u8, p.r as u8, p.b.map_or("-".to_string(), |n| n.to_string()), p.filter));
     if p.wide.is_some() {
         bump(&mut stats, "probe.wide_formula");
+    }
+    if model.fix_rounds >= 4 {
+        bump(&mut stats, "probe.fixed-point-needing-4-or-more-rounds");
     }
     if p.straddle.is_some() && text.len() > 8000 {
         bump(&mut stats, "fault.buffer-boundary-inside-utf8-char");
@@ -1511,6 +1520,9 @@ pub fn execute_robust(p: &RobustPlan) -> RunOutcome {
     let code = sp.status;
     if code == Some(97) {
         out.unjudged = Some("tick budget exhausted in the child process".into());
+    } else if code == Some(101) && provably_non_convergent(&bytes) {
+        bump(&mut stats, "probe.panic-on-non-convergent-input");
+        out.unjudged = Some("rsbdd panicked on an input whose fixed point provably does not converge (outside C12)".into());
     } else if sp.signal || code == Some(101) || code.is_none() {
         vs.push(viol(
             "C12",
@@ -1889,4 +1901,18 @@ pub fn execute_export(p: &ExportPlan) -> RunOutcome {
     out.violations = vs;
     out.stats = stats;
     out
+}
+
+
+/// True when the text parses in process (no ordering) and the model's own iteration of one of
+/// its fixed points provably cycles: C12 does not speak about such inputs.
+fn provably_non_convergent(bytes: &[u8]) -> bool {
+    if bytes.len() > 1 << 16 {
+        return false;
+    }
+    let r = catch(|| {
+        let mut rd = std::io::BufReader::new(bytes);
+        rsbdd::parser::ParsedFormula::new(&mut rd, None).ok().and_then(|pf| crate::model::fromsym::fixed_points_converge(&pf))
+    });
+    matches!(r, Caught::Ok(Some(false)))
 }
